@@ -67,6 +67,36 @@ def counter_init_zero(f: FuncInfo, name: str, before_line: int) -> bool:
     return last is not None and isinstance(last.value, ast.Constant) and last.value.value == 0 and not isinstance(last.value.value, bool)
 
 
+
+def closed_forms(S: Summary, f: FuncInfo, v: Poly, store_loops) -> Poly:
+    """v with every accumulator `c~` replaced by its closed form where it has one: c starts at the literal 0 before the nest, is advanced exactly once, unconditionally, by a
+    loop-invariant amount `inc` at the END of the body of one enclosing loop `for k in range(0, n)` (after everything that reads it in the same iteration) - then inside that
+    iteration c = inc * k.  (`row_start += W` per row makes `row_start + x` the flattened index y * W + x.)"""
+    from .forms import real_guards
+    names = {a[1][:-1] for a in v.all_atoms() if a[0] == "s" and a[1].endswith("~")}
+    out = v
+    for c in names:
+        incs = counter_increments(S, c)
+        if len(incs) != 1:
+            continue
+        inc, op, g, l, n = incs[0]
+        if op != "+=" or real_guards(g) or not isinstance(inc, Poly) or len(l) != 1:   # (advanced inside ONE loop only: nothing carries it across iterations of an outer loop)
+            continue
+        lp = l[-1]
+        if not any(lp is x for x in store_loops) or lp.kind != "range" or lp.lo != ZERO or lp.step != ONE:
+            continue
+        # loop-invariant increment: it mentions neither the loop variables nor any accumulator
+        if any(a[0] == "s" and (a[1].endswith("~") or a[1] in {x.var for x in store_loops}) for a in inc.all_atoms()):
+            continue
+        # the increment is the last statement of that loop's body (so every read in the iteration sees the value at its start) and c starts at 0
+        body = lp.node.body if hasattr(lp.node, "body") else []
+        if not body or body[-1] is not n or not counter_init_zero(f, c, lp.node.lineno):
+            continue
+        k = Poly.sym(lp.var)
+        out = out.subst(lambda a, c=c, inc=inc, k=k: (inc * k) if a == ("s", c + "~") else None)
+    return out
+
+
 def check_slim_counter(ctx, rule: str, S: Summary, counter: str, masks: List[str], guard_ok=None, shape=None,
                        must_index: Optional[List[str]] = None, inner_extra: int = 0, what: str = "slim index", dims: int = 2) -> bool:
     if dims == 1:
